@@ -72,10 +72,15 @@ func GenPod(r *rand.Rand) *corev1.Pod {
 	p.Name = pick(r, names)
 	p.Namespace = pick(r, []string{"ns1", "ns1", "ns1", "default", "", "kube-system", strings.Repeat("s", 63), "a_b"})
 	p.UID = types.UID(pick(r, []string{"", "u1", "u2", "00000000-0000-0000-0000-000000000000"}))
-	switch r.Intn(8) {
+	switch r.Intn(10) {
 	case 0:
 	case 1:
 		p.OwnerReferences = []metav1.OwnerReference{}
+	case 8: // FormatKey cannot resolve a deployment: two owners, the first a ReplicaSet
+		p.OwnerReferences = []metav1.OwnerReference{{Kind: "ReplicaSet", Name: pick(r, []string{"dp-rs1", "rs", ""})},
+			{Kind: pick(r, kinds), Name: "other"}}
+	case 9: // a bare ReplicaSet (no dash in its name) / ReplicaSet owner with an odd name
+		p.OwnerReferences = []metav1.OwnerReference{{Kind: "ReplicaSet", Name: pick(r, []string{"rs", "", "-", "a-", "x_y-1"})}}
 	case 2:
 		t := true
 		p.OwnerReferences = []metav1.OwnerReference{{Kind: pick(r, kinds), Name: pick(r, names), Controller: &t},
@@ -122,6 +127,49 @@ func GenPod(r *rand.Rand) *corev1.Pod {
 	if r.Intn(6) == 0 {
 		p.Labels = map[string]string{"app": pick(r, []string{"a", "web", "db", ""})}
 	}
+	return p
+}
+
+// GenValidPod builds a pod the scheduler plugin can really serve (known workload kinds, sane names, requested ranges
+// inside the configured pools or none, valid release policies), so that Bind reaches the apiserver calls.
+func GenValidPod(r *rand.Rand) *corev1.Pod {
+	p := &corev1.Pod{}
+	p.Namespace = "ns1"
+	i := r.Intn(40)
+	switch r.Intn(4) {
+	case 0:
+		p.Name = fmt.Sprintf("a-%d", i)
+		p.OwnerReferences = []metav1.OwnerReference{{Kind: "StatefulSet", Name: "a"}}
+	case 1:
+		p.Name = fmt.Sprintf("dp-rs1-x%d", i)
+		p.OwnerReferences = []metav1.OwnerReference{{Kind: "ReplicaSet", Name: "dp-rs1"}}
+	case 2:
+		p.Name = fmt.Sprintf("tapp-%d", i)
+		p.OwnerReferences = []metav1.OwnerReference{{Kind: "TApp", Name: "tapp"}}
+	default:
+		p.Name = fmt.Sprintf("solo%d", i)
+	}
+	p.UID = types.UID("u-" + p.Name) // one incarnation per name (a different uid makes Bind wait for the delete event)
+	if r.Intn(12) == 0 {
+		p.UID = "u-other"
+	}
+	p.Annotations = map[string]string{}
+	switch r.Intn(5) {
+	case 0:
+		p.Annotations[ArgsAnn] = `{"request_ip_range":[["10.49.27.216~10.49.27.250"]]}`
+	case 1:
+		p.Annotations[ArgsAnn] = `{"request_ip_range":[["10.173.13.10~10.173.13.80"],["10.173.13.2","10.173.13.10~10.173.13.80"]]}`
+	}
+	if r.Intn(3) == 0 && len(p.OwnerReferences) > 0 && p.OwnerReferences[0].Kind != "ReplicaSet" {
+		p.Annotations[PolicyAnn] = pick(r, []string{"immutable", "never"})
+	}
+	if r.Intn(8) == 0 {
+		p.Annotations[PoolAnn] = pick(r, []string{"pool1", "pool2"})
+	}
+	q := resource.NewQuantity(1, resource.DecimalSI)
+	p.Spec.Containers = []corev1.Container{{Name: "c", Resources: corev1.ResourceRequirements{
+		Requests: corev1.ResourceList{corev1.ResourceName(FIPResource): *q}}}}
+	p.Status.Phase = corev1.PodPhase(pick(r, []string{"Pending", "Running", "Succeeded", "Failed"}))
 	return p
 }
 
